@@ -96,6 +96,8 @@ MODULES = [
     dict(name='sorter', file='sorter.rs', header=HDR_IO, rewrites=[
         dict(name='R-path:bytemuck', pat='use bytemuck::{cast_slice, cast_slice_mut, Pod, Zeroable};\n', rep='use crate::bytemuck::{cast_slice, cast_slice_mut};\n'),
         dict(name='R-derive:Pod', pat='#[derive(Default, Copy, Clone, Pod, Zeroable)]', rep='#[derive(Copy, Clone)]'),
+        dict(name='R-assert-diverge', kind='assert_diverge', count='+'),
+        dict(name='R-align-to', pat='unsafe { self.buffer.align_to::<EntryBound>().1.len() }', rep='aligned_bounds_capacity(&self.buffer)'),
         dict(name='R-mutself', kind='mutself', fn='extract_reader_cursors_and_merger', count=1),
         dict(name='drop:Debug', kind='drop_item', pat=r'^impl<MF, CC: ChunkCreator> Debug for Sorter<MF, CC>', count=1),
         dict(name='drop:DropBuffer', kind='drop_item', pat=r'^impl Drop for EntryBoundAlignedBuffer', count=1),
